@@ -42,7 +42,7 @@ for d in sorted(os.listdir(os.path.join(V, 'seeded'))):
     confirmed = bool(suite and '385 passed' in suite and dw and ('FAILED' in dw or 'overflow' in dw or 'error' in dw.lower()) and dwo and dwo.startswith('test result: ok'))
     meta = {
         'property': pid,
-        'round': 8 if d.endswith(('_15', '_16')) else 7 if d.endswith(('_13', '_14')) else 6 if d.endswith(('_11', '_12')) else 5 if d.endswith(('_9', '_10')) else 4 if d.endswith(('_7', '_8')) else 3 if d.endswith(('_5', '_6')) else 2 if d.endswith(('_3', '_4')) else 1,
+        'round': 9 if d.endswith(('_17', '_18')) else 8 if d.endswith(('_15', '_16')) else 7 if d.endswith(('_13', '_14')) else 6 if d.endswith(('_11', '_12')) else 5 if d.endswith(('_9', '_10')) else 4 if d.endswith(('_7', '_8')) else 3 if d.endswith(('_5', '_6')) else 2 if d.endswith(('_3', '_4')) else 1,
         'note': open(os.path.join(p, 'note.txt')).read().strip() if os.path.exists(os.path.join(p, 'note.txt')) else None,
         'title': agent.get('title'),
         'files': agent.get('files'),
